@@ -102,6 +102,56 @@ func pureStdHelper(fn *ssa.Function) bool {
 	return false
 }
 
+// privateHelpersB: the module functions that exist for fn alone — reached from fn through static
+// calls and called from nowhere else (from fn and from each other only).  A piece of fn extracted
+// into a function or method of its own is such a helper; a rule that evaluates fn evaluates them in
+// place, whatever their signature, and models only the functions fn shares with the rest of the module.
+func (c *Ctx) privateHelpersB(fn *ssa.Function) map[*ssa.Function]bool {
+	cand := map[*ssa.Function]bool{}
+	var reach func(f *ssa.Function, depth int)
+	reach = func(f *ssa.Function, depth int) {
+		if depth > 6 {
+			return
+		}
+		eachInstr(f, func(ins ssa.Instruction) {
+			if call, ok := ins.(ssa.CallInstruction); ok {
+				if g := call.Common().StaticCallee(); g != nil && g != fn && !cand[g] && c.inModule(g) && len(g.Blocks) > 0 {
+					cand[g] = true
+					reach(g, depth+1)
+				}
+			}
+		})
+	}
+	reach(fn, 0)
+	for changed := true; changed; {
+		changed = false
+		for g := range cand {
+			for _, h := range c.modFuncs {
+				if h == fn || cand[h] {
+					continue
+				}
+				used := len(staticCalls(h, g)) > 0
+				if !used {
+					// taken as a value (method value, callback) outside fn
+					eachInstr(h, func(ins ssa.Instruction) {
+						for _, op := range ins.Operands(nil) {
+							if *op == ssa.Value(g) {
+								used = true
+							}
+						}
+					})
+				}
+				if used {
+					delete(cand, g)
+					changed = true
+					break
+				}
+			}
+		}
+	}
+	return cand
+}
+
 // ---------------------------------------------------------------------------------------------
 // 2. normal form of integer terms; exhaustive comparison
 
@@ -654,7 +704,7 @@ func cipherRefB(in []sv, r sv, decrypt bool) (out []sv, state sv) {
 // cipherEvalB: an evaluator with the hooks the cipher rules share: copy between modelled
 // slices is performed, nil comparisons are decided.
 func (c *Ctx) cipherEvalB(extra func(call ssa.CallInstruction, args []sv) (sv, bool)) *ssaEval {
-	ev := &ssaEval{c: c, bind: map[ssa.Value]sv{}, mem: map[string]sv{}}
+	ev := &ssaEval{c: c, bind: map[ssa.Value]sv{}, mem: map[string]sv{}, flatEmbedded: true}
 	ev.call = func(call ssa.CallInstruction, args []sv) (sv, bool) {
 		if call != nil && callName(call) == "builtin copy" && len(args) == 2 && args[0].k == svList {
 			src, ok := ev.elems(args[1])
@@ -931,9 +981,19 @@ func (c *Ctx) cipherWriterB() {
 		return written, ev.mem["ew."+RF], ""
 	}
 	nring := &ringB{width: map[string]uint{"p0": 8, "r": 16}}
+	// the size of the buffer: the rule's choice (four) where the writer allocates it, the declared
+	// length where the buffer is a fixed-size array
+	bufN := 4
+	if st, ok := wT.Type().Underlying().(*types.Struct); ok {
+		for i := 0; i < st.NumFields(); i++ {
+			if at, ok := st.Field(i).Type().Underlying().(*types.Array); ok && st.Field(i).Name() == bufF && at.Len() > 0 && at.Len() <= 4096 {
+				bufN = int(at.Len())
+			}
+		}
+	}
 	// one byte, for all values of the plaintext byte and the state
 	{
-		got, state, why := run(symV("r"), symListB("p", 1), 4)
+		got, state, why := run(symV("r"), symListB("p", 1), bufN)
 		want, wantR := cipherRefB(symListB("p", 1), symV("r"), false)
 		bad := why
 		if bad == "" {
@@ -949,16 +1009,20 @@ func (c *Ctx) cipherWriterB() {
 	// a sequence that fills the buffer once: every byte encrypted once, in order, state carried over
 	{
 		data := intListB(0x25, 0x21, 0, 0xff, 0x80, 0x41)
-		got, state, why := run(intV(55665), data, 4)
+		for i := len(data); i < bufN+2; i++ {
+			data = append(data, intV(int64((i*37+11)&0xff)))
+		}
+		got, state, why := run(intV(55665), data, bufN)
 		want, wantR := cipherRefB(data, intV(55665), false)
 		bad := why
+		what := fmt.Sprintf("%d bytes through a buffer of %d", len(data), bufN)
 		if bad == "" {
-			bad = nring.bytesAgreeB(got, want, "six bytes through a buffer of four")
+			bad = nring.bytesAgreeB(got, want, what)
 		}
 		if bad == "" && (state.k != svInt || state.i != wantR.i) {
-			bad = "state after six bytes is " + state.String() + ", expected " + wantR.String()
+			bad = "state after " + what + " is " + state.String() + ", expected " + wantR.String()
 		}
-		c.check(bad == "", "CIPHER-SHAPE", fname, "every buffered byte is encrypted once, in order, with the state carried across flushes", site.Pos(), "six concrete bytes through a buffer of four", "the eexec writer: "+bad)
+		c.check(bad == "", "CIPHER-SHAPE", fname, "every buffered byte is encrypted once, in order, with the state carried across flushes", site.Pos(), "concrete bytes: "+what, "the eexec writer: "+bad)
 	}
 }
 
@@ -1040,8 +1104,9 @@ func (c *Ctx) eexecCellB(beginOK bool, result string, delta int) eexecOutcomeB {
 	scT := c.typeObj("postscript", "scanner")
 	modeF := c.fld("scanner.eexec")
 	var o eexecOutcomeB
-	// a method of the scanner that switches decryption on (stores a non-zero constant to the mode
-	// field, itself or in a scanner method it calls)
+	// a method of the scanner that switches decryption on (stores something other than the constant
+	// zero to the mode field — a mode constant or a choice between mode constants —, itself or in a
+	// scanner method it calls)
 	var begins func(g *ssa.Function, depth int) bool
 	begins = func(g *ssa.Function, depth int) bool {
 		if g == nil || len(g.Blocks) == 0 || g.Signature.Recv() == nil || !pointsTo(g.Signature.Recv().Type(), scT) || depth > 3 {
@@ -1050,7 +1115,7 @@ func (c *Ctx) eexecCellB(beginOK bool, result string, delta int) eexecOutcomeB {
 		found := false
 		eachInstr(g, func(ins ssa.Instruction) {
 			if st, ok := ins.(*ssa.Store); ok && isFieldAddr(st.Addr, scT, modeF) {
-				if k, isC := constInt(st.Val); isC && k != 0 {
+				if k, isC := constInt(st.Val); !isC || k != 0 {
 					found = true
 				}
 			}
@@ -1294,143 +1359,318 @@ func (c *Ctx) dictStackDisciplineB() {
 // 5. value sources
 
 // valueSourcesB: the values from which v can be computed — followed through phis, conversions,
-// type assertions, arithmetic, local cells, struct fields (the stores into the same field
-// anywhere in the module), parameters (the arguments at the static call sites) and results of
-// module functions.  The leaves are constants, map look-ups, and whatever is not followed.
-func (c *Ctx) valueSourcesB(v ssa.Value) []ssa.Value {
-	seen := map[ssa.Value]bool{}
-	var leaves []ssa.Value
-	var walk func(v ssa.Value, depth int)
-	walk = func(v ssa.Value, depth int) {
-		if v == nil || seen[v] {
+// type assertions, arithmetic, local cells (also cells captured by closures), struct fields (the
+// stores into the same field anywhere in the module), parameters and results of module functions.
+// Calls are followed with their context: a result is traced into the callee, and a parameter
+// reached there is the argument of that very call (a generic `get(dict, key, default)` helper yields
+// the look-up of the key given at the call, not of every key it is ever called with); a parameter
+// reached without a context is any argument at any static call site.  The leaves are constants,
+// map look-ups (with the key as far as it is a constant in the context), and whatever is not
+// followed.
+type leafB struct {
+	v   ssa.Value
+	key string // for a map look-up: the constant key, "" if it is not a constant
+}
+
+type ctxB struct {
+	call   ssa.CallInstruction
+	parent *ctxB
+	depth  int
+}
+
+func paramIndexB(p *ssa.Parameter) int {
+	for i, q := range p.Parent().Params {
+		if q == p {
+			return i
+		}
+	}
+	return -1
+}
+
+// cellStoresB: the values stored into a local cell, by the function that owns it and by the
+// closures that capture it.
+func cellStoresB(cell ssa.Value, depth int) []ssa.Value {
+	var out []ssa.Value
+	refs := cell.Referrers()
+	if refs == nil || depth > 3 {
+		return nil
+	}
+	for _, r := range *refs {
+		switch x := r.(type) {
+		case *ssa.Store:
+			if x.Addr == cell {
+				out = append(out, x.Val)
+			}
+		case *ssa.MakeClosure:
+			if fn, ok := x.Fn.(*ssa.Function); ok {
+				for i, b := range x.Bindings {
+					if b == cell && i < len(fn.FreeVars) {
+						out = append(out, cellStoresB(fn.FreeVars[i], depth+1)...)
+					}
+				}
+			}
+		}
+	}
+	return out
+}
+
+// bindingsOfB: the values bound to a free variable where its closure is made.
+func bindingsOfB(fv *ssa.FreeVar) []ssa.Value {
+	fn := fv.Parent()
+	idx := -1
+	for i, q := range fn.FreeVars {
+		if q == fv {
+			idx = i
+		}
+	}
+	var out []ssa.Value
+	if fn.Parent() == nil || idx < 0 {
+		return nil
+	}
+	eachInstr(fn.Parent(), func(ins ssa.Instruction) {
+		if mc, ok := ins.(*ssa.MakeClosure); ok && mc.Fn == ssa.Value(fn) && idx < len(mc.Bindings) {
+			out = append(out, mc.Bindings[idx])
+		}
+	})
+	return out
+}
+
+func (c *Ctx) valueSourcesB(v ssa.Value) []leafB {
+	type key struct {
+		v   ssa.Value
+		ctx *ctxB
+	}
+	seen := map[key]bool{}
+	ctxs := map[key]*ctxB{} // (call, parent) → node, so that equal contexts are the same node
+	push := func(call ssa.CallInstruction, parent *ctxB) *ctxB {
+		k := key{call.Value(), parent}
+		if n, ok := ctxs[k]; ok {
+			return n
+		}
+		d := 1
+		if parent != nil {
+			d = parent.depth + 1
+		}
+		n := &ctxB{call: call, parent: parent, depth: d}
+		ctxs[k] = n
+		return n
+	}
+	var leaves []leafB
+	leaf := func(v ssa.Value) { leaves = append(leaves, leafB{v: v}) }
+	// constant string in the context (the key of a look-up)
+	var constStr func(v ssa.Value, ctx *ctxB, depth int) string
+	constStr = func(v ssa.Value, ctx *ctxB, depth int) string {
+		if depth > 8 {
+			return ""
+		}
+		switch x := v.(type) {
+		case *ssa.Const:
+			if x.Value != nil && x.Value.Kind() == constant.String {
+				return constant.StringVal(x.Value)
+			}
+		case *ssa.Convert:
+			return constStr(x.X, ctx, depth+1)
+		case *ssa.ChangeType:
+			return constStr(x.X, ctx, depth+1)
+		case *ssa.Parameter:
+			if idx := paramIndexB(x); ctx != nil && ctx.call.Common().StaticCallee() == x.Parent() && idx >= 0 && idx < len(ctx.call.Common().Args) {
+				return constStr(ctx.call.Common().Args[idx], ctx.parent, depth+1)
+			}
+		}
+		return ""
+	}
+	var walk func(v ssa.Value, ctx *ctxB, depth int)
+	intoCallee := func(call *ssa.Call, resIdx int, ctx *ctxB, depth int) bool {
+		g := call.Call.StaticCallee()
+		if g == nil || !c.inModule(g) || len(g.Blocks) == 0 || (ctx != nil && ctx.depth > 6) {
+			return false
+		}
+		sub := push(call, ctx)
+		for _, r := range returns(g) {
+			if resIdx < len(r.Results) {
+				walk(r.Results[resIdx], sub, depth+1)
+			}
+		}
+		return true
+	}
+	walk = func(v ssa.Value, ctx *ctxB, depth int) {
+		if v == nil || seen[key{v, ctx}] {
 			return
 		}
-		seen[v] = true
-		if depth > 16 {
-			leaves = append(leaves, v)
+		seen[key{v, ctx}] = true
+		if depth > 24 {
+			leaf(v)
 			return
 		}
 		switch x := v.(type) {
 		case *ssa.Phi:
 			for _, e := range x.Edges {
-				walk(e, depth+1)
+				walk(e, ctx, depth+1)
 			}
 		case *ssa.Convert:
-			walk(x.X, depth+1)
+			walk(x.X, ctx, depth+1)
 		case *ssa.ChangeType:
-			walk(x.X, depth+1)
+			walk(x.X, ctx, depth+1)
 		case *ssa.MakeInterface:
-			walk(x.X, depth+1)
+			walk(x.X, ctx, depth+1)
 		case *ssa.ChangeInterface:
-			walk(x.X, depth+1)
+			walk(x.X, ctx, depth+1)
 		case *ssa.TypeAssert:
-			walk(x.X, depth+1)
+			walk(x.X, ctx, depth+1)
 		case *ssa.Extract:
 			switch t := x.Tuple.(type) {
 			case *ssa.TypeAssert:
 				if x.Index == 0 {
-					walk(t.X, depth+1)
+					walk(t.X, ctx, depth+1)
 					return
 				}
 			case *ssa.Lookup:
 				if x.Index == 0 {
-					leaves = append(leaves, t)
+					walk(t, ctx, depth+1)
 					return
 				}
 			case *ssa.Call:
-				if g := t.Call.StaticCallee(); g != nil && c.inModule(g) && len(g.Blocks) > 0 {
-					for _, r := range returns(g) {
-						if x.Index < len(r.Results) {
-							walk(r.Results[x.Index], depth+1)
-						}
-					}
+				if intoCallee(t, x.Index, ctx, depth) {
 					return
 				}
 			}
-			leaves = append(leaves, v)
+			leaf(v)
 		case *ssa.BinOp:
-			walk(x.X, depth+1)
-			walk(x.Y, depth+1)
+			walk(x.X, ctx, depth+1)
+			walk(x.Y, ctx, depth+1)
 		case *ssa.UnOp:
 			if x.Op != token.MUL {
-				walk(x.X, depth+1)
+				walk(x.X, ctx, depth+1)
 				return
 			}
-			switch a := x.X.(type) {
-			case *ssa.Alloc:
-				for _, r := range *a.Referrers() {
-					if st, ok := r.(*ssa.Store); ok && st.Addr == ssa.Value(a) {
-						walk(st.Val, depth+1)
-					}
-				}
-			case *ssa.FieldAddr:
-				base, fld, ok := fieldAddrOf(a)
-				if !ok {
-					leaves = append(leaves, v)
+			// a load: the cell (local, or a local of the enclosing function captured by reference)
+			cells := []ssa.Value{x.X}
+			if fv, ok := x.X.(*ssa.FreeVar); ok {
+				cells = bindingsOfB(fv)
+				if len(cells) == 0 {
+					leaf(v)
 					return
 				}
-				_ = base
-				n := 0
-				for _, f := range c.modFuncs {
-					eachInstr(f, func(ins ssa.Instruction) {
-						if st, ok := ins.(*ssa.Store); ok {
-							if _, f2, ok := fieldAddrOf(st.Addr); ok && f2 == fld {
-								n++
-								walk(st.Val, depth+1)
-							}
+			}
+			for _, cell := range cells {
+				switch a := cell.(type) {
+				case *ssa.Alloc:
+					for _, sv := range cellStoresB(a, 0) {
+						// the stores of the enclosing function are not made in the callee's context
+						sctx := ctx
+						if cell != x.X {
+							sctx = nil
 						}
-					})
+						walk(sv, sctx, depth+1)
+					}
+				case *ssa.FieldAddr:
+					_, fld, ok := fieldAddrOf(a)
+					if !ok {
+						leaf(v)
+						continue
+					}
+					n := 0
+					for _, f := range c.modFuncs {
+						eachInstr(f, func(ins ssa.Instruction) {
+							if st, ok := ins.(*ssa.Store); ok {
+								if _, f2, ok := fieldAddrOf(st.Addr); ok && f2 == fld {
+									n++
+									walk(st.Val, nil, depth+1)
+								}
+							}
+						})
+					}
+					if n == 0 {
+						leaf(v)
+					}
+				default:
+					leaf(v)
 				}
-				if n == 0 {
-					leaves = append(leaves, v)
-				}
-			default:
-				leaves = append(leaves, v)
+			}
+		case *ssa.FreeVar:
+			bs := bindingsOfB(x)
+			for _, b := range bs {
+				walk(b, nil, depth+1)
+			}
+			if len(bs) == 0 {
+				leaf(v)
 			}
 		case *ssa.Parameter:
 			fn := x.Parent()
-			idx := -1
-			for i, p := range fn.Params {
-				if p == x {
-					idx = i
-				}
+			idx := paramIndexB(x)
+			if ctx != nil && ctx.call.Common().StaticCallee() == fn && idx >= 0 && idx < len(ctx.call.Common().Args) {
+				walk(ctx.call.Common().Args[idx], ctx.parent, depth+1)
+				return
 			}
 			n := 0
 			for _, g := range c.modFuncs {
 				for _, call := range staticCalls(g, fn) {
 					if idx >= 0 && idx < len(call.Common().Args) {
 						n++
-						walk(call.Common().Args[idx], depth+1)
+						walk(call.Common().Args[idx], nil, depth+1)
 					}
 				}
 			}
 			if n == 0 {
-				leaves = append(leaves, v)
+				leaf(v)
 			}
 		case *ssa.Call:
 			if b, ok := x.Call.Value.(*ssa.Builtin); ok && (b.Name() == "min" || b.Name() == "max") {
 				for _, a := range x.Call.Args {
-					walk(a, depth+1)
+					walk(a, ctx, depth+1)
 				}
 				return
 			}
-			if g := x.Call.StaticCallee(); g != nil && c.inModule(g) && len(g.Blocks) > 0 {
-				for _, r := range returns(g) {
-					if len(r.Results) > 0 {
-						walk(r.Results[0], depth+1)
-					}
-				}
+			if intoCallee(x, 0, ctx, depth) {
 				return
 			}
-			leaves = append(leaves, v)
+			leaf(v)
 		case *ssa.Lookup:
-			leaves = append(leaves, v)
+			leaves = append(leaves, leafB{v: x, key: constStr(x.Index, ctx, 0)})
 		default:
-			leaves = append(leaves, v)
+			leaf(v)
 		}
 	}
-	walk(v, 0)
+	walk(v, nil, 0)
 	return leaves
+}
+
+// constSourcesB: the numeric constants among the value sources of v (valueSourcesB), sorted and
+// without duplicates — a context-sensitive drop-in for constSources of rules_c06.go: a default that
+// is handed to a generic `get(dict, key, default)` helper is found, and only the default of that
+// very call.
+func (c *Ctx) constSourcesB(v ssa.Value) []float64 {
+	set := map[float64]bool{}
+	for _, l := range c.valueSourcesB(v) {
+		if k, ok := l.v.(*ssa.Const); ok && k.Value != nil && (k.Value.Kind() == constant.Int || k.Value.Kind() == constant.Float) {
+			f, _ := constant.Float64Val(constant.ToFloat(k.Value))
+			set[f] = true
+		}
+	}
+	var out []float64
+	for f := range set {
+		out = append(out, f)
+	}
+	sort.Float64s(out)
+	return out
+}
+
+// fromDictEntryB: the entry `key` of a dictionary is among the value sources of v.
+func (c *Ctx) fromDictEntryB(v ssa.Value, key string) (found bool, consts []string) {
+	for _, l := range c.valueSourcesB(v) {
+		switch x := l.v.(type) {
+		case *ssa.Lookup:
+			if l.key == key {
+				found = true
+			}
+		case *ssa.Const:
+			if x.Value != nil {
+				consts = append(consts, x.Value.String())
+			}
+		}
+	}
+	sort.Strings(consts)
+	return
 }
 
 // lenIVFlowB (C06): every charstring decryption — glyph procedures and subroutines alike — takes
@@ -1446,22 +1686,433 @@ func (c *Ctx) lenIVFlowB() {
 				continue
 			}
 			n++
-			fromFont := false
-			var consts []string
-			for _, l := range c.valueSourcesB(call.Common().Args[1]) {
-				switch x := l.(type) {
-				case *ssa.Lookup:
-					if k, ok := x.Index.(*ssa.Const); ok && k.Value != nil && k.Value.Kind() == constant.String && constant.StringVal(k.Value) == "lenIV" {
-						fromFont = true
-					}
-				case *ssa.Const:
-					consts = append(consts, x.Value.String())
-				}
-			}
-			sort.Strings(consts)
+			fromFont, consts := c.fromDictEntryB(call.Common().Args[1], "lenIV")
 			c.check(fromFont, "T1-LENIV", c.fname(f), "the number of lead bytes of this decryption is the font's lenIV where it has one", call.Pos(), "entry lenIV of a dictionary among the sources of the argument",
 				fmt.Sprintf("the lenIV entry of the font cannot reach the number of lead bytes used here (sources: constants %v): charstrings or subroutines of a font with lenIV other than the default are decrypted with the wrong number of lead bytes", consts))
 		}
 	}
 	c.floor("T1-LENIV", 2)
+}
+
+// ---------------------------------------------------------------------------------------------
+// 6. the subroutines of a font (T1-SUBRS of C06)
+
+// flowsToSubrListB follows the result of a call forward — through conversions, the argument cell
+// of a variadic append, phis, parameters of module functions it is handed to, and returns to the
+// callers — to the instruction that makes it an element of a [][]byte (an append, or a store into
+// an element of one).
+func (c *Ctx) flowsToSubrListB(v ssa.Value, consumer *ssa.Function) ssa.Instruction {
+	seen := map[ssa.Value]bool{}
+	var found ssa.Instruction
+	var fwd func(v ssa.Value, depth int)
+	fwd = func(v ssa.Value, depth int) {
+		if v == nil || seen[v] || depth > 12 || found != nil {
+			return
+		}
+		seen[v] = true
+		refs := v.Referrers()
+		if refs == nil {
+			return
+		}
+		for _, r := range *refs {
+			if found != nil {
+				return
+			}
+			switch x := r.(type) {
+			case *ssa.Store:
+				if x.Val == v {
+					switch a := x.Addr.(type) {
+					case *ssa.IndexAddr:
+						if isByteSliceSlice(a.X.Type()) {
+							found = x
+							return
+						}
+						fwd(a.X, depth+1)
+					case *ssa.Alloc:
+						fwd(a, depth+1)
+					}
+				}
+			case *ssa.UnOp:
+				if x.Op == token.MUL {
+					fwd(x, depth+1)
+				}
+			case *ssa.Slice, *ssa.ChangeType, *ssa.Convert, *ssa.Phi, *ssa.MakeInterface, *ssa.Extract:
+				fwd(r.(ssa.Value), depth+1)
+			case *ssa.Return:
+				fn := x.Parent()
+				for _, g := range c.modFuncs {
+					for _, call := range staticCalls(g, fn) {
+						if cv := call.Value(); cv != nil {
+							fwd(cv, depth+1)
+						}
+					}
+				}
+			case *ssa.Call:
+				if b, ok := x.Call.Value.(*ssa.Builtin); ok {
+					if b.Name() == "append" && isByteSliceSlice(x.Type()) {
+						found = x
+						return
+					}
+					continue
+				}
+				// (the decoder consumes charstrings; its [][]byte is the list of return frames)
+				if g := x.Call.StaticCallee(); g != nil && c.inModule(g) && len(g.Blocks) > 0 && g != consumer && g.Parent() != consumer {
+					for i, a := range x.Call.Args {
+						if a == v && i < len(g.Params) {
+							fwd(g.Params[i], depth+1)
+						}
+					}
+				}
+			}
+		}
+	}
+	fwd(v, 0)
+	return found
+}
+
+// innermostLoopB: the header of the innermost loop of its function that contains block b.
+func innermostLoopB(b *ssa.BasicBlock) *ssa.BasicBlock {
+	var H *ssa.BasicBlock
+	for _, h := range b.Parent().Blocks {
+		isHeader := false
+		for _, p := range h.Preds {
+			if h.Dominates(p) {
+				isHeader = true
+			}
+		}
+		if !isHeader || !h.Dominates(b) || !reachesBlock(b, h) {
+			continue
+		}
+		// b is in the loop of h if it reaches h without leaving the blocks h dominates
+		in := false
+		seen := map[*ssa.BasicBlock]bool{}
+		st := []*ssa.BasicBlock{b}
+		for len(st) > 0 && !in {
+			q := st[len(st)-1]
+			st = st[:len(st)-1]
+			if seen[q] || !h.Dominates(q) {
+				continue
+			}
+			seen[q] = true
+			for _, s := range q.Succs {
+				if s == h {
+					in = true
+				}
+				st = append(st, s)
+			}
+		}
+		if in && (H == nil || H.Dominates(h)) {
+			H = h
+		}
+	}
+	return H
+}
+
+func isNamedB(t types.Type, pkgSuffix, name string) bool {
+	n, ok := t.(*types.Named)
+	return ok && n.Obj().Name() == name && n.Obj().Pkg() != nil && strings.HasSuffix(n.Obj().Pkg().Path(), pkgSuffix)
+}
+
+// subrsTableB (C06): the subroutines of the font are the entries of the Subrs array, one for one:
+// entry i, a string of any length, becomes subroutine i = its decryption with the font's lenIV (a
+// subroutine may be as short as the single command `return`, so with lenIV 0 one byte is a
+// complete entry); an entry that is not a string leaves an empty subroutine in its place.  Decided
+// on the evaluator: the code that handles one entry — one pass of the loop that puts the result of
+// the decryption into the list of subroutines, or the function doing so — is evaluated for
+// entries of 0 … 7 concrete bytes × lenIV 0, 1, 4 and for an entry that is not a string; the
+// decryption itself is evaluated in place, so a length guard that agrees with it is the same thing.
+func (c *Ctx) subrsTableB() {
+	const rule = "T1-SUBRS"
+	deob := c.fn("type1", "deobfuscateCharstring")
+	dec := c.method("type1", "decodeInfo", "decodeCharString")
+	type regionB struct {
+		at ssa.Instruction // where the decrypted entry joins the subroutines
+		H  *ssa.BasicBlock // loop header, nil: the whole function
+		fn *ssa.Function
+	}
+	var regions []regionB
+	for _, f := range c.modFuncs {
+		if f == dec || f.Parent() == dec {
+			continue
+		}
+		for _, call := range staticCalls(f, deob) {
+			cv := call.Value()
+			if cv == nil {
+				continue
+			}
+			at := c.flowsToSubrListB(cv, dec)
+			if at == nil {
+				continue
+			}
+			r := regionB{at: at, fn: at.Parent(), H: innermostLoopB(at.Block())}
+			dup := false
+			for _, q := range regions {
+				if q.fn == r.fn && q.H == r.H {
+					dup = true
+				}
+			}
+			if !dup {
+				regions = append(regions, r)
+			}
+		}
+	}
+	if len(regions) == 0 {
+		c.fail(rule, c.fname(deob), "the decrypted entries of Subrs become the subroutines of the font", deob.Pos(), "no result of the charstring decryption is put into a list of subroutines")
+	}
+	for _, r := range regions {
+		r := r
+		fname := c.fname(r.fn)
+		inRegion := func(b *ssa.BasicBlock) bool {
+			if b.Parent() != r.fn {
+				return true
+			}
+			if r.H == nil {
+				return true
+			}
+			return r.H.Dominates(b) && reachesBlock(b, r.H)
+		}
+		// indexedStyle: a string entry was stored into the element of its own index (then an entry
+		// of another type may leave its element as it is)
+		indexed := false
+		// one entry: bytes (a string entry) or nil (an entry of another type), with the font's lenIV n
+		cell := func(entry []int64, isString bool, n int64) (got []sv, why string) {
+			var ev *ssaEval
+			var E sv
+			ev = c.cipherEvalB(func(call ssa.CallInstruction, args []sv) (sv, bool) {
+				if call == nil && len(args) == 2 && strings.HasPrefix(args[0].s, "typeassert:") {
+					if strings.HasSuffix(args[0].s, "postscript.String") && args[1].k == svList {
+						return sv{k: svTuple, tup: []sv{args[1], boolV(true)}}, true
+					}
+					return sv{k: svTuple, tup: []sv{{k: svNil}, boolV(false)}}, true
+				}
+				return sv{}, false
+			})
+			if isString {
+				E = ev.newList(intListB(entry...))
+			} else {
+				E = symV("Integer:entry")
+			}
+			lenIVCache := map[ssa.Value]bool{}
+			isLenIV := func(v ssa.Value) bool {
+				if r, ok := lenIVCache[v]; ok {
+					return r
+				}
+				ok, _ := c.fromDictEntryB(v, "lenIV")
+				lenIVCache[v] = ok
+				return ok
+			}
+			byType := func(v ssa.Value) (sv, bool) {
+				t := v.Type()
+				switch {
+				case isNamedB(t, "go/postscript", "Object"):
+					return E, true
+				case isNamedB(t, "go/postscript", "String") && isString:
+					return E, true
+				case isByteSliceSlice(t):
+					return ev.newList([]sv{symV("prev")}), true
+				case isNamedB(t, "go/postscript", "Integer") || isIntTypeB(t):
+					if isLenIV(v) {
+						return intV(n), true
+					}
+				}
+				return sv{}, false
+			}
+			ev.load = func(ld *ssa.UnOp, addr sv) (sv, bool) {
+				if strings.HasPrefix(addr.s, "global:") {
+					return symV(addr.s[strings.LastIndex(addr.s, ".")+1:]), true
+				}
+				return byType(ld)
+			}
+			fr := &frame{vals: map[ssa.Value]sv{}}
+			// what the code of the entry takes from outside: by type, and the font's lenIV by its source
+			for _, b := range r.fn.Blocks {
+				if !inRegion(b) {
+					continue
+				}
+				for _, ins := range b.Instrs {
+					for _, op := range ins.Operands(nil) {
+						v := *op
+						if v == nil {
+							continue
+						}
+						if oi, ok := v.(ssa.Instruction); ok && r.H != nil && oi.Parent() == r.fn && !inRegion(oi.Block()) {
+							if _, done := ev.bind[v]; !done {
+								if x, ok := byType(v); ok {
+									ev.bind[v] = x
+								}
+							}
+						}
+					}
+				}
+			}
+			var ret []sv
+			back := false
+			if r.H != nil {
+				for _, ins := range r.H.Instrs {
+					if phi, ok := ins.(*ssa.Phi); ok {
+						if x, ok := byType(phi); ok {
+							fr.vals[phi] = x
+						} else {
+							fr.vals[phi] = symV("v:" + phi.Name())
+						}
+					}
+				}
+				if ifi, ok := r.H.Instrs[len(r.H.Instrs)-1].(*ssa.If); ok {
+					ev.bind[ifi.Cond] = boolV(reachesBlock(r.H.Succs[0], r.H) && r.H.Dominates(r.H.Succs[0]) && inRegion(r.H.Succs[0]))
+				}
+				_, _, ret = ev.runBlocks(fr, r.H, nil, func(next, from *ssa.BasicBlock) bool {
+					if next == r.H {
+						back = true
+					}
+					return next == r.H
+				})
+			} else {
+				var args []sv
+				for _, p := range r.fn.Params {
+					if x, ok := byType(p); ok {
+						args = append(args, x)
+					} else if _, isPtr := p.Type().Underlying().(*types.Pointer); isPtr {
+						args = append(args, sv{k: svAddr, s: "arg:" + p.Name()})
+					} else {
+						args = append(args, symV("arg:"+p.Name()))
+					}
+				}
+				for _, fv := range r.fn.FreeVars {
+					fr.vals[fv] = sv{k: svAddr, s: "free:" + fv.Name()}
+				}
+				for i, p := range r.fn.Params {
+					fr.vals[p] = args[i]
+				}
+				_, _, ret = ev.runBlocks(fr, r.fn.Blocks[0], nil, nil)
+				for _, ef := range ev.effects {
+					if ef.what == "return" {
+						// the entry is dealt with when the function returns without an error
+						back = len(ret) == 0 || !isErrorTypeB(r.fn.Signature.Results().At(len(ret)-1).Type()) || ret[len(ret)-1].k == svNil
+					}
+				}
+			}
+			if ev.why != "" {
+				return nil, "not evaluable: " + ev.why
+			}
+			if !back {
+				return nil, fmt.Sprintf("the entry ends the reading of the subroutines (result %v)", ret)
+			}
+			var added [][]sv
+			for _, ef := range ev.effects {
+				switch {
+				case ef.what == "append" && len(ef.args) == 3:
+					if call, ok := ef.ins.(*ssa.Call); ok && isByteSliceSlice(call.Type()) {
+						el, _ := ev.elems(ef.args[1])
+						for _, x := range el {
+							xe, ok := ev.elems(x)
+							if !ok {
+								return nil, "a subroutine is " + ev.render(x)
+							}
+							added = append(added, append([]sv{}, xe...))
+						}
+					}
+				case ef.what == "store":
+					// subrs[i] = …: the element of the entry's own index
+					if st, ok := ef.ins.(*ssa.Store); ok {
+						if ia, ok := st.Addr.(*ssa.IndexAddr); ok && isByteSliceSlice(ia.X.Type()) {
+							if !entryIndexB(r.fn, ia.Index) {
+								return nil, "a subroutine is stored at an index that is not the index of its entry"
+							}
+							indexed = true
+							xe, ok := ev.elems(ef.args[0])
+							if !ok {
+								return nil, "a subroutine is " + ev.render(ef.args[0])
+							}
+							added = append(added, append([]sv{}, xe...))
+						}
+					}
+				case ef.what == "panic":
+					return nil, "the entry makes the reader panic"
+				}
+			}
+			if len(added) == 0 {
+				// (stored by index, nothing stored leaves an empty subroutine: decided by the caller)
+				return nil, "nothing"
+			}
+			if len(added) != 1 {
+				return nil, fmt.Sprintf("%d subroutines are added for one entry", len(added))
+			}
+			return added[0], ""
+		}
+		nring := &ringB{width: map[string]uint{}}
+		type cellResB struct {
+			what string
+			got  []sv
+			want []sv
+			why  string
+		}
+		var cells []cellResB
+		for _, n := range []int64{0, 1, 4} {
+			for L := 0; L <= 7; L++ {
+				entry := []int64{0x10, 0xbf, 0x31, 0x70, 0x4f, 0xab, 0x5b}[:L]
+				got, why := cell(entry, true, n)
+				var want []sv
+				if int64(L) >= n {
+					ref, _ := cipherRefB(intListB(entry...), intV(4330), true)
+					want = ref[n:]
+				}
+				cells = append(cells, cellResB{fmt.Sprintf("an entry of %d byte(s) in a font with lenIV %d", L, n), got, want, why})
+			}
+		}
+		{
+			got, why := cell(nil, false, 4)
+			cells = append(cells, cellResB{"an entry that is not a string", got, nil, why})
+		}
+		var bad []string
+		ncell := len(cells)
+		for _, cl := range cells {
+			why := cl.why
+			if why == "nothing" {
+				// where subroutines are stored by the index of their entry, storing nothing leaves
+				// an empty subroutine in the entry's place
+				why = ""
+				if !indexed {
+					why = "no subroutine is added for the entry"
+				}
+			}
+			if why == "" {
+				why = nring.bytesAgreeB(cl.got, cl.want, "the subroutine")
+			}
+			if why != "" {
+				bad = append(bad, cl.what+": "+why)
+			}
+		}
+		c.check(len(bad) == 0, rule, fname, "entry i of Subrs, whatever its length, becomes subroutine i: its decryption with the font's lenIV", r.at.Pos(), fmt.Sprintf("%d cells evaluated: entries of 0..7 bytes × lenIV 0, 1, 4; an entry of another type", ncell),
+			"the subroutines of the font are not the decrypted entries of its Subrs array: "+joinMax(bad, 3)+": a glyph that calls such a subroutine loses the path segment it holds")
+	}
+	c.floor(rule, 1)
+}
+
+func isErrorTypeB(t types.Type) bool { return types.TypeString(t, nil) == "error" }
+
+// entryIndexB: idx is the index with which fn takes an entry out of an array of objects.
+func entryIndexB(fn *ssa.Function, idx ssa.Value) bool {
+	hit := false
+	isObjs := func(t types.Type) bool {
+		sl, ok := t.Underlying().(*types.Slice)
+		return ok && isNamedB(sl.Elem(), "go/postscript", "Object")
+	}
+	eachInstr(fn, func(ins ssa.Instruction) {
+		switch x := ins.(type) {
+		case *ssa.IndexAddr:
+			if isObjs(x.X.Type()) && origin(x.Index) == origin(idx) {
+				hit = true
+			}
+		case *ssa.Index:
+			if isObjs(x.X.Type()) && origin(x.Index) == origin(idx) {
+				hit = true
+			}
+		}
+	})
+	return hit
+}
+
+func isIntTypeB(t types.Type) bool {
+	b, ok := t.Underlying().(*types.Basic)
+	return ok && b.Info()&types.IsInteger != 0
 }
